@@ -1,0 +1,20 @@
+//go:build verif
+
+package archiver
+
+// Contracts for govc (see /verif/DESIGN.md). Comment-only file: it adds no code.
+
+// archive: the stage function, opaque at worker level.
+//@ func archive
+//@   opaque
+//@   modifies models.Item::*, models.URL::*
+
+// Worker gauge discipline (C17): the worker contributes +1 to its gauge while it is alive and
+// its net contribution is 0 once it has returned, on every exit path.
+//@ func (*archiver).worker
+//@   property C17
+//@   mode math
+//@   attr noreach stats.ArchiverRoutinesIncr,stats.ArchiverRoutinesDecr
+//@   requires stats.globalStats != nil && stats.globalStats.ArchiverRoutines != nil
+//@   loop for invariant [gauge-live] @C17 adds(stats.globalStats.ArchiverRoutines.count) == old(adds(stats.globalStats.ArchiverRoutines.count)) + 1 && stats.globalStats != nil && stats.globalStats.ArchiverRoutines != nil // C17: worker gauges equal the number of live workers
+//@   ensures [gauge-balanced] @C17 adds(stats.globalStats.ArchiverRoutines.count) == old(adds(stats.globalStats.ArchiverRoutines.count)) // C17: zero after stop
